@@ -219,6 +219,7 @@ typedef struct http_txn {
 	nni_http_chunks *chunks;
 	http_txn_state   state;
 	nng_err          abort_rv; // set when the upper aio was canceled
+	bool             held;     // we hold the caller's connection
 	nni_reap_node    reap;
 } http_txn;
 
@@ -228,6 +229,10 @@ http_txn_reap(void *arg)
 	http_txn *txn = arg;
 
 	nni_aio_stop(&txn->aio);
+	if (txn->held) {
+		// drop the hold taken by nni_http_transact_conn
+		nni_http_conn_rele(txn->conn);
+	}
 	if (txn->client != NULL) {
 		// We only close the connection if we created it.
 		if (txn->conn != NULL) {
@@ -415,6 +420,9 @@ nni_http_transact_conn(nni_http_conn *conn, nni_aio *aio)
 		return;
 	}
 	nni_list_append(&txn->aios, aio);
+	// the caller may close (free) the connection while we are at work
+	nni_http_conn_hold(conn);
+	txn->held = true;
 	nni_http_write_req(conn, &txn->aio);
 	nni_mtx_unlock(&http_txn_lk);
 }
